@@ -87,6 +87,7 @@ type Predicted struct {
 	Path    string // relative to module root
 	PkgName string // package clause
 	PkgID   string // identity used for the same-file agreement rule
+	PkgPath string // resolved package path
 }
 
 // Predict is the independent model of docs/reference/output.md.
@@ -140,6 +141,7 @@ func (s *LSpec) Predict(c *LConv) Predicted {
 		pkgName = normPkgName(strings.TrimPrefix(strings.TrimPrefix(pkgPath, DefaultModule), "/"))
 	}
 	p.PkgName = pkgName
+	p.PkgPath = pkgPath
 	return p
 }
 
